@@ -164,7 +164,7 @@ def evaluate(ctx: Ctx, jobs: list[dict], results: list[dict], label: str) -> Non
                 # (or at rounding-noise level) and the driven atoms evolve in mean field, whatever dt and precision are.  The
                 # finding is identified by this input class; every other clause and every other input still alarms.
                 key = f"{label}:tdvp-projection-error:slm-frozen-atoms-between-interacting-atoms"
-            if v[2] == "result-values-differ-from-reference" and not key.endswith("slm-frozen-atoms-between-interacting-atoms"):
+            if v[2] == "result-values-differ-from-reference" and job.get("solver", "tdvp") == "tdvp" and not key.endswith("slm-frozen-atoms-between-interacting-atoms"):
                 # Second-order TDVP has a splitting error that depends on dt (and on how strongly the step is driven), not on
                 # `precision`.  An error that VANISHES under time-step refinement is discretisation error; one that persists is a
                 # defect.  Decision: the same scenario at dt/4 (same evaluation times, its own exact reference on its own rows)
